@@ -64,8 +64,9 @@ def run(chk):
         "not the behaviour of `abort` on all programs. R07a: P-VAR abstract interpretation (drop flags, discriminant "
         "tests) of every non-test MIR body that owns an ExpressionError finds each feasible point where an "
         "expression-originated error stops existing without being returned; none may still be able to hold Abort. "
-        "R07b: Runtime::resolve maps Abort (and only Abort/Fallible/Missing) to Terminate::Abort. Undecided: that no "
-        "later expression runs beyond `?` propagation, message contents.")
+        "R07b: Runtime::resolve maps Abort (and only Abort/Fallible/Missing) to Terminate::Abort. R07c: inside the resolve of every compiler "
+        "expression no child is evaluated in a P-VAR state where an earlier child's Result may be Err (so nothing of the same expression runs after an "
+        "abort). Undecided: effects of other expressions beyond `?` propagation, message contents.")
     chk.assumptions += [
         "every way an ExpressionError value can cease to exist in safe Rust is a Drop terminator, a move into a callee, or "
         "a move into the return place; external callees receiving one by value are restricted to the reviewed PASS_ON/ABSORBING tables (anything else fails closed)",
@@ -94,3 +95,8 @@ def run(chk):
                           "Terminate::Error receives %s" % sorted(er), detail=d2)
         else:
             chk.instance(rid, d2, ok=True)
+
+
+def _siblings(chk):
+    import siblings
+    siblings.rule_sibling_evaluation(chk, "R07c", "aborted")
